@@ -36,9 +36,9 @@ import seqcheck
 
 SPEC = {
     "prop": "C15",
-    "lean_targets": ["InfernoVerif.Props.C15"],
-    "prop_files": ["InfernoVerif/Props/C15.lean"],
-    "lemma_files": ["InfernoVerif/Lemmas/Lifecycle.lean"],
+    "lean_targets": ["InfernoVerif.Props.C15", "InfernoVerif.Props.C15b"],
+    "prop_files": ["InfernoVerif/Props/C15.lean", "InfernoVerif/Props/C15b.lean"],
+    "lemma_files": ["InfernoVerif/Lemmas/Lifecycle.lean", "InfernoVerif/Lemmas/Lifecycle2.lean"],
     "model_files": ["InfernoVerif/Model/Lifecycle.lean"],
     "driver": "drivers/C15.lean",
     "assumptions": [
